@@ -26,7 +26,7 @@ Definition dec_bufcfg (v : val) : bufcfg :=
 Record pcase := mkpc {
   pc_entry : N; pc_chunks : list bytes; pc_ending : ending; pc_stop : option nat; pc_buf : bufcfg; pc_id0 : bytes }.
 Definition dec_case (i : val) : pcase :=
-  mkpc (as_n (nth_val 0 i)) (map as_b (as_l (nth_val 1 i))) (dec_ending (nth_val 2 i)) (dec_stop (nth_val 3 i))
+  mkpc (if (as_n (nth_val 0 i) =? 4)%N then 1%N else as_n (nth_val 0 i)) (* 4: a Connection's second attempt *) (map as_b (as_l (nth_val 1 i))) (dec_ending (nth_val 2 i)) (dec_stop (nth_val 3 i))
        (dec_bufcfg (nth_val 4 i)) (as_b (nth_val 5 i)).
 
 (* connection-like entries report EOF and take retry values; only entries 2, 3 see them *)
